@@ -107,18 +107,31 @@ def load_known(pid):
 
 
 # ---------------------------------------------------------------- driver build
+REPO = os.environ.get("VERIF_REPO", "/repo")      # the tree under test; the registered commands always use /repo
+
+
 def build_driver(work):
     gosum = os.path.join(HARNESS, "go.sum")
-    want = open("/repo/go.sum").read()
-    if not os.path.exists(gosum) or open(gosum).read() != want:
-        tmp = gosum + f".{os.getpid()}.tmp"
-        with open(tmp, "w") as f:
-            f.write(want)
-        os.replace(tmp, gosum)
+    want = open(os.path.join(REPO, "go.sum")).read()
     binp = os.path.join(work, "driver")
-    p = run(["go", "build", "-tags", "verif", "-o", binp, "."], cwd=HARNESS, env=GOENV, timeout=900)
+    if REPO == "/repo":
+        if not os.path.exists(gosum) or open(gosum).read() != want:
+            tmp = gosum + f".{os.getpid()}.tmp"
+            with open(tmp, "w") as f:
+                f.write(want)
+            os.replace(tmp, gosum)
+        cmd = ["go", "build", "-tags", "verif", "-o", binp, "."]
+    else:
+        # testing a scratch worktree (seeded changes): same harness sources, alternate module file pointing at that tree
+        alt = os.path.join(work, "alt.mod")
+        with open(alt, "w") as f:
+            f.write(open(os.path.join(HARNESS, "go.mod")).read().replace("=> /repo", "=> " + REPO))
+        with open(os.path.join(work, "alt.sum"), "w") as f:
+            f.write(want)
+        cmd = ["go", "build", "-modfile=" + alt, "-tags", "verif", "-o", binp, "."]
+    p = run(cmd, cwd=HARNESS, env=GOENV, timeout=900)
     if p.returncode != 0:
-        raise Infra("driver does not build against /repo's working tree:\n" + tail(p.stdout))
+        raise Infra(f"driver does not build against {REPO}'s working tree:\n" + tail(p.stdout))
     return binp
 
 
